@@ -141,6 +141,7 @@ def py_operand(o):
 
 _OBJVIA = ["direct"]
 _RAVIA = ["rows"]
+_MLAYOUT = ["C"]
 
 
 def mk_obj(obj):
@@ -164,6 +165,10 @@ def mk_obj(obj):
             stored, sel = rows, None
         if k == "matrix":
             m = np.array(stored, dtype=DT2NP[obj[1]]).reshape(len(stored), len(stored[0]) if stored else 0)
+            if _MLAYOUT[0] == "F":                  # the same matrix in column-major / transposed-view layout
+                m = np.asfortranarray(m)
+            elif _MLAYOUT[0] == "T":
+                m = np.ascontiguousarray(m.T).T
             r = RunLength2dArray.from_array(m)
         else:
             if _RAVIA[0] != "rows":             # the ragged input itself realised as a derived / still pending array (exec_ragged.build)
@@ -319,9 +324,16 @@ def op_hist(c, o):
     dt, seq, bins = c[1], c[2], c[3]
     a = dec_seq(seq, dt)
     r = RunLengthArray.from_array(a)
-    h1 = np.histogram(r) if bins == 0 else np.histogram(r, bins=int(bins))
-    h2 = np.histogram(a) if bins == 0 else np.histogram(a, bins=int(bins))
-    return ["bool", int(np.array_equal(h1[0], h2[0]) and np.allclose(h1[1], h2[1]))]
+    kw = {}
+    if bins:
+        kw["bins"] = int(bins)
+    if o.get("density"):
+        kw["density"] = True
+    if o.get("hrange"):
+        kw["range"] = tuple(o["hrange"])
+    h1 = np.histogram(r, **kw)
+    h2 = np.histogram(a, **kw)
+    return ["bool", int(np.allclose(h1[0], h2[0], equal_nan=True) and np.allclose(h1[1], h2[1]))]
 
 
 def op_concat(c, o):
@@ -415,6 +427,7 @@ def execute(case, opts=None):
     _WIDE[0] = False
     _OBJVIA[0] = o.get("objvia", "direct")
     _RAVIA[0] = o.get("ravia", "rows")
+    _MLAYOUT[0] = o.get("mlayout", "C")
     mode = hi_ok(case) if o.get("hi") else None
     ER._HI[0] = int(o["hi"]) if mode else 0
     ER._HI_KEEP[0] = mode == "keep"
